@@ -350,11 +350,11 @@ Section P.
     dm_pipe st' = dm_pipe st /\ dm_seq st' = dm_seq st /\ length (dm_devs st') = length (dm_devs st).
 
   (* _handle_input: every line is answered or queued; the cross-layer invariant survives each of them *)
-  Lemma handle_input_inv fuel : forall st i ok acc,
+  Lemma handle_input_inv fuel : forall st i acc,
     DPInv st ->
-    exists st' evs, handle_input expand_str ranged_sorted ranged_plain sorted fuel st i ok acc = Ok (st', evs) /\ DPInv st' /\ same_static st st'.
+    exists st' evs, handle_input expand_str ranged_sorted ranged_plain sorted fuel st i acc = Ok (st', evs) /\ DPInv st' /\ same_static st st'.
   Proof.
-    induction fuel as [|f IH]; intros st i ok acc I; cbn [handle_input]; [exists st, acc; split; [reflexivity|split; [exact I|repeat split]]|].
+    induction fuel as [|f IH]; intros st i acc I; cbn [handle_input]; [exists st, acc; split; [reflexivity|split; [exact I|repeat split]]|].
     destruct (nth_error (dm_clients st) i) as [x|] eqn:En; [|exists st, acc; split; [reflexivity|split; [exact I|repeat split]]].
     destruct (take_line [] (dc_from x)) as [[line rest]|]; [|exists st, acc; split; [reflexivity|split; [exact I|repeat split]]].
     destruct (parse (cconf_of st) (dm_store st) (dc x) line) as [[[cf' store'] c'] q] eqn:Ep.
@@ -364,20 +364,16 @@ Section P.
     destruct (parse_input_toks expand_str ranged_sorted ranged_plain sorted _ _ _ _ _ _ _ _ Ep Ix) as (d & Ho' & _ & Ht' & I' & _).
     pose proof (parse_input_id expand_str ranged_sorted ranged_plain sorted _ _ _ _ _ _ _ _ Ep) as Hid.
     (* the record that replaces x *)
-    set (x0 := set_dc c' (mkDcli (dc x) rest (dc_to x) (dc_nl x) (S (dc_lines x)))).
-    set (x' := if cl_quit c' && negb (cl_quit (dc x)) && ok then mkDcli (dc x0) (dc_from x0) [] (dc_nl x0) (dc_lines x0) else x0).
+    set (x' := set_dc c' (mkDcli (dc x) rest (dc_to x) (dc_nl x) (S (dc_lines x)))).
     assert (Kx' : cli_ok x').
-    { assert (K0 : cli_ok x0).
-      { split; [exact I'|]. exists (toks ++ d). unfold x0. cbn [set_dc dc dc_lines]. split; [rewrite Ho', Ho, render_app; reflexivity|].
-        rewrite terminals_app. lia. }
-      unfold x'. destruct (cl_quit c' && negb (cl_quit (dc x)) && ok); [|exact K0]. exact K0. }
-    assert (Hcid : cid x' = cid x).
-    { unfold x', x0, cid. destruct (cl_quit c' && negb (cl_quit (dc x)) && ok); cbn; exact Hid. }
-    assert (Hdc : dc x' = c') by (unfold x', x0; destruct (cl_quit c' && negb (cl_quit (dc x)) && ok); reflexivity).
+    { split; [exact I'|]. exists (toks ++ d). unfold x'. cbn [set_dc dc dc_lines]. split; [rewrite Ho', Ho, render_app; reflexivity|].
+      rewrite terminals_app. lia. }
+    assert (Hcid : cid x' = cid x) by (unfold x', cid; cbn; exact Hid).
+    assert (Hdc : dc x' = c') by reflexivity.
     destruct (cl_cmd (dc x)) as [k|] eqn:Ek.
     - (* a command is in progress: 208 (or 203), nothing is queued *)
       destruct (parse_busy_q _ _ _ _ _ _ _ _ k Ek Ep) as [-> Hk'].
-      match goal with |- context [handle_input _ _ _ _ f ?s i ok ?a] => destruct (IH s i ok a) as (st' & evs & E & I2 & S2) end.
+      match goal with |- context [handle_input _ _ _ _ f ?s i ?a] => destruct (IH s i a) as (st' & evs & E & I2 & S2) end.
       { constructor; cbn [dm_devs dm_clients dm_seq].
         - exact (dp_devs _ I).
         - unfold ids. cbn [dm_clients]. rewrite (upd_nth_same cid _ i x); [exact (dp_nodup _ I)|exact En|exact Hcid].
@@ -387,7 +383,7 @@ Section P.
     - (* idle *)
       destruct (parse_idle expand_str ranged_sorted ranged_plain sorted _ _ _ _ _ _ _ _ Ek Ep) as [(-> & Hn' & _ & _)|(k & al & Hk' & _ & Hpk & Htot & _ & _ & _ & _ & Hq)].
       + (* answered at once *)
-        match goal with |- context [handle_input _ _ _ _ f ?s i ok ?a] => destruct (IH s i ok a) as (st' & evs & E & I2 & S2) end.
+        match goal with |- context [handle_input _ _ _ _ f ?s i ?a] => destruct (IH s i a) as (st' & evs & E & I2 & S2) end.
         { constructor; cbn [dm_devs dm_clients dm_seq].
           - exact (dp_devs _ I).
           - unfold ids. cbn [dm_clients]. rewrite (upd_nth_same cid _ i x); [exact (dp_nodup _ I)|exact En|exact Hcid].
@@ -404,7 +400,7 @@ Section P.
         rewrite <- Hq' in Ee, Kc.
         assert (Hqne : q <> []) by (intros ->; cbn in Htot; lia).
         destruct q as [|q0 qr]; [congruence|]. rewrite Ee.
-        match goal with |- context [handle_input _ _ _ _ f ?s i ok ?a] => destruct (IH s i ok a) as (st' & evs & E & I2 & S2) end.
+        match goal with |- context [handle_input _ _ _ _ f ?s i ?a] => destruct (IH s i a) as (st' & evs & E & I2 & S2) end.
         { constructor; cbn [dm_devs dm_clients dm_seq].
           - exact Hd'.
           - unfold ids. cbn [dm_clients]. rewrite (upd_nth_same cid _ i x); [exact (dp_nodup _ I)|exact En|exact Hcid].
@@ -475,7 +471,7 @@ Section P.
       destruct (ci_out ci); [destruct (ci_wrote ci)|]; inversion E2; subst; cbn; exact H1. }
     destruct H2 as (A1 & A2 & A3 & A4).
     pose proof (DPInv_upd_client st i x x2 En A1 A2 A3 A4 I) as I1.
-    match goal with |- context [handle_input _ _ _ _ ?f ?s i ?ok ?a] => destruct (handle_input_inv f s i ok a I1) as (st2 & evs & E & I2 & S2) end.
+    match goal with |- context [handle_input _ _ _ _ ?f ?s i ?a] => destruct (handle_input_inv f s i a I1) as (st2 & evs & E & I2 & S2) end.
     rewrite E. eexists _, _, _. split; [reflexivity|]. split; [exact I2|]. exact S2.
   Qed.
 
